@@ -48,6 +48,11 @@ type Config struct {
 	Deadline  time.Time // zero = none; checked between chunks
 	MaxStates int       // 0 = none; stops extending when reached (reported as cap)
 	Run       func(hist []uint8) Outcome
+	// Lasso only: fixed stems (instead of all stems up to the given length), the operations cycles are built
+	// from (nil = all), and a tail appended to the history before it is judged (e.g. "merge the child")
+	Stems    [][]uint8
+	CycleOps []uint8
+	Tail     []uint8
 }
 
 type Fail struct {
@@ -277,4 +282,189 @@ func hkey(s string) (k [16]byte) {
 	h := sha256.Sum256([]byte(s))
 	copy(k[:], h[:16])
 	return
+}
+
+// Lasso explores "lasso-shaped" histories: every stem of at most StemLen operations followed by every
+// cycle of 1..CycleLen operations repeated up to Repeats times, all on ONE instance (the history is
+// replayed as a whole, no state merging: hidden state that accumulates over many uses - counters,
+// lists that are trimmed, flags that flip on the n-th use - is exactly what merging on a canonical
+// key would hide). Run is called after every completed repetition. Enabled is consulted for every
+// operation of the growing history; a cycle that becomes disabled ends there.
+type LassoStats struct {
+	Name       string                `json:"name"`
+	Lassos     int                   `json:"lassos"`
+	Runs       int                   `json:"runs"`
+	MaxLen     int                   `json:"longest_history"`
+	Violations []Fail                `json:"-"`
+	Known      map[string]*KnownStat `json:"-"`
+	Exhaustive bool                  `json:"exhaustive"`
+	Cap        string                `json:"cap,omitempty"`
+}
+
+func Lasso(c Config, stemLen, cycleLen, repeats int) *LassoStats {
+	st := &LassoStats{Name: c.Name, Exhaustive: true, Known: map[string]*KnownStat{}}
+	if rp := rt.Replay; rp != nil {
+		if rp.Run != c.Name {
+			return st
+		}
+		rt.SlotSet(0, c.Name, rp.Ops)
+		o1, o2 := safeRun(c.Run, rp.Ops), safeRun(c.Run, rp.Ops)
+		rt.SlotClear(0)
+		fmt.Printf("REPLAY %s %v\n", c.Name, c.names(rp.Ops))
+		if o1.Verdict != o2.Verdict || o1.Msg != o2.Msg {
+			rt.HarnessError("replay of %v is not deterministic: %q vs %q", c.names(rp.Ops), o1.Msg, o2.Msg)
+		}
+		if o1.Verdict == Violation {
+			st.Violations = []Fail{{Hist: c.names(rp.Ops), Raw: rp.Ops, Msg: o1.Msg}}
+		}
+		return st
+	}
+	if c.Workers <= 0 {
+		c.Workers = 1
+	}
+	enabledSeq := func(prefix, ops []uint8) bool {
+		h := append([]uint8{}, prefix...)
+		for _, o := range ops {
+			if c.Enabled != nil && !c.Enabled(h, int(o)) {
+				return false
+			}
+			h = append(h, o)
+		}
+		return true
+	}
+	// all sequences of length 0..n over the alphabet
+	var seqs func(n int) [][]uint8
+	seqs = func(n int) [][]uint8 {
+		out := [][]uint8{{}}
+		level := [][]uint8{{}}
+		for l := 1; l <= n; l++ {
+			var next [][]uint8
+			for _, p := range level {
+				for o := 0; o < c.NOps; o++ {
+					next = append(next, append(append([]uint8{}, p...), uint8(o)))
+				}
+			}
+			out = append(out, next...)
+			level = next
+		}
+		return out
+	}
+	type lasso struct{ stem, cycle []uint8 }
+	var work []lasso
+	stems := c.Stems
+	if stems == nil {
+		stems = seqs(stemLen)
+	}
+	cycles := seqs(cycleLen)
+	if c.CycleOps != nil {
+		allowed := map[uint8]bool{}
+		for _, o := range c.CycleOps {
+			allowed[o] = true
+		}
+		var f [][]uint8
+		for _, cy := range cycles {
+			ok := true
+			for _, o := range cy {
+				if !allowed[o] {
+					ok = false
+				}
+			}
+			if ok {
+				f = append(f, cy)
+			}
+		}
+		cycles = f
+	}
+	for _, stem := range stems {
+		if !enabledSeq(nil, stem) {
+			continue
+		}
+		for _, cyc := range cycles {
+			if len(cyc) == 0 || !enabledSeq(stem, cyc) {
+				continue
+			}
+			work = append(work, lasso{stem, cyc})
+		}
+	}
+	var idx int64 = -1
+	var mu sync.Mutex
+	var wg sync.WaitGroup
+	reported := map[string]bool{}
+	for w := 0; w < c.Workers; w++ {
+		wg.Add(1)
+		go func() {
+			defer wg.Done()
+			slot := rt.NewSlot()
+			defer rt.SlotClear(slot)
+			for {
+				i := int(atomic.AddInt64(&idx, 1))
+				if i >= len(work) {
+					return
+				}
+				if !c.Deadline.IsZero() && time.Now().After(c.Deadline) {
+					mu.Lock()
+					st.Exhaustive = false
+					st.Cap = fmt.Sprintf("time budget reached after %d of %d lassos", i, len(work))
+					mu.Unlock()
+					return
+				}
+				l := work[i]
+				h := append([]uint8{}, l.stem...)
+				runs, maxLen := 0, 0
+				for r := 0; r < repeats; r++ {
+					if !enabledSeq(h, l.cycle) {
+						break
+					}
+					h = append(h, l.cycle...)
+					judged := h
+					if len(c.Tail) > 0 {
+						if !enabledSeq(h, c.Tail) {
+							continue
+						}
+						judged = append(append([]uint8{}, h...), c.Tail...)
+					}
+					rt.SlotSet(slot, c.Name, judged)
+					o := safeRun(c.Run, judged)
+					rt.SlotClear(slot)
+					runs++
+					maxLen = len(h)
+					if o.Verdict == OK {
+						if o.Cut {
+							break
+						}
+						continue
+					}
+					mu.Lock()
+					if o.Verdict == Known {
+						k := st.Known[o.Finding]
+						if k == nil {
+							k = &KnownStat{Witness: c.names(judged), Msg: o.Msg}
+							st.Known[o.Finding] = k
+						}
+						k.Count++
+					} else {
+						key := o.Msg
+						if len(key) > 40 {
+							key = key[:40]
+						}
+						if !reported[key] && len(st.Violations) < 10 {
+							reported[key] = true
+							st.Violations = append(st.Violations, Fail{Hist: c.names(judged), Raw: append([]uint8{}, judged...), Msg: fmt.Sprintf("(stem %v, cycle %v repeated %d times) %s", c.names(l.stem), c.names(l.cycle), r+1, o.Msg)})
+						}
+					}
+					mu.Unlock()
+					break
+				}
+				mu.Lock()
+				st.Lassos++
+				st.Runs += runs
+				if maxLen > st.MaxLen {
+					st.MaxLen = maxLen
+				}
+				mu.Unlock()
+			}
+		}()
+	}
+	wg.Wait()
+	return st
 }
